@@ -575,8 +575,13 @@ def gen_recipe(r, cfg=None, profile="mixed"):
             op = r.choice(["RELU", "RELU6", "RELU_N1_TO_1", "LEAKY_RELU", "ABS", "QUANTIZE"])
             if dtype == "int16" and op in ("LEAKY_RELU",):
                 pass
+            if dtype in ("int8", "uint8") and r.random() < 0.12:
+                op = "PRELU"  # per-channel alpha, some >= 1: lowered to min / mul / relu / add with temporaries
             L = dict(op=op)
-            if op in ("QUANTIZE", "LEAKY_RELU"):
+            if op == "PRELU":
+                L["aq"] = [f32(r.choice([0.004, 0.01, 0.02])), 0 if dtype == "int8" else 128]
+                L["q"] = list(oq)
+            if op in ("QUANTIZE", "LEAKY_RELU", "PRELU"):
                 L["q"] = list(oq)
                 q_ = oq
             else:
